@@ -340,3 +340,28 @@ def sampling(tier, rng, rep):
             if np.max(np.abs(Mq @ Mq.T - np.eye(m))) > 1e-9:
                 rep.fail("find_definite_isometry_orthogonal", "not orthogonal", {"v": nv.tolist()})
             rep.case(key=("qr", t))
+
+
+@bounded(P, "arc_helpers_batches", functions=[U + "short_arc", U + "right_to_left", U + "arc_include"], note="batch shapes: row i of the result is the result on row i")
+def arc_helpers_batches(tier, rng, rep):
+    N = 300 if tier == 'thorough' else 60
+    rep.rule = "random batches (k,2), k=2..6, and (2,3,2) of angle pairs in the documented ranges (many rows crossing the branch cut); non-trivial = at least two rows that get reordered"
+    rep.bound = f"{N} batches"
+    for t in range(N):
+        shape = (int(rng.integers(2, 7)),) if t % 4 else (2, 3)
+        th = rng.uniform(-2 * np.pi, 2 * np.pi, size=shape + (2,))
+        th2 = rng.uniform(-np.pi, np.pi, size=shape + (2,))
+        ref = rng.uniform(-np.pi, np.pi, size=shape)
+        inp = {"thetas": th.tolist(), "thetas_pi": th2.tolist(), "ref": ref.tolist()}
+        flipped = 0
+
+        def body():
+            nonlocal flipped
+            a = utils.short_arc(th.copy()); b = utils.right_to_left(th2.copy()); c = utils.arc_include(th2.copy(), ref.copy())
+            for idx in np.ndindex(*shape):
+                ua = utils.short_arc(th[idx].copy()); ub = utils.right_to_left(th2[idx].copy()); uc = utils.arc_include(th2[idx].copy(), ref[idx])
+                if np.max(np.abs(a[idx] - ua)) > 0 or np.max(np.abs(b[idx] - ub)) > 0 or np.max(np.abs(c[idx] - uc)) > 0:
+                    rep.fail("batch_row_equals_unit_result", f"row {idx}", inp); return
+                flipped += int(np.any(ub != th2[idx]))
+        rep.attempt("arc_helpers_run", inp, body)
+        rep.case(key=(t,), nontrivial=flipped >= 2, sample=inp if t == 0 else None)
